@@ -67,7 +67,9 @@ func (o cop) expected() string {
 	case "ReadAt6":
 		return fmt.Sprintf("n=6 %q", callsFile[o.off:o.off+6])
 	case "WriteAt":
-		return "n=2"
+		return fmt.Sprintf("n=%d", len(o.data))
+	case "Chmod":
+		return "ok"
 	}
 	return "?"
 }
@@ -131,6 +133,11 @@ func (o cop) do(c *Client, f *File) (string, error) {
 			return "", err
 		}
 		return fmt.Sprintf("n=%d", n), nil
+	case "Chmod": // a SETSTAT whose packet size is chosen through the length of the path
+		if err := c.Chmod(o.path, 0o640); err != nil {
+			return "", err
+		}
+		return "ok", nil
 	}
 	panic("unknown op " + o.kind)
 }
@@ -156,6 +163,8 @@ func (o cop) matches(r preq) bool {
 		return r.typ == sshFxpRead && int(r.off) == o.off+4
 	case "WriteAt":
 		return r.typ == sshFxpWrite && int(r.off) == o.off
+	case "Chmod":
+		return r.typ == sshFxpSetstat && r.path == o.path
 	}
 	return false
 }
@@ -169,10 +178,12 @@ type callsSpec struct {
 	cutTmo    bool // the stream fails with a timeout-class error (wraps os.ErrDeadlineExceeded) that persists
 	sink      bool // the client->server half keeps accepting (and dropping) bytes after the package closed it
 	fw        int
-	fwEOF     bool // the failing writes report io.EOF (what a closed ssh channel does)
-	after     bool // one more Stat after all callers returned
-	sync1     bool // rendezvous c2s pipe
-	handsh    bool // the cut may fall into the handshake
+	fwEOF     bool   // the failing writes report io.EOF (what a closed ssh channel does)
+	after     bool   // one more Stat after all callers returned
+	sync1     bool   // rendezvous c2s pipe
+	handsh    bool   // the cut may fall into the handshake
+	startID   uint32 // != 0: value of the client's request-id counter when the callers start (ids wrap around at 2^32)
+	maxPacket int    // client packet size (default 2)
 }
 
 func (s callsSpec) String() string {
@@ -233,11 +244,14 @@ func callsScenario(s callsSpec, prop string) explore.Scenario {
 					replyEnds[r.id] = len(p.out.Total) + len(b)
 					return b
 				}
-			}, MaxPacketUnchecked(2), MaxConcurrentRequestsPerFile(2))
+			}, MaxPacketUnchecked(max(2, s.maxPacket)), MaxConcurrentRequestsPerFile(2))
 			if env.err != nil {
 				return
 			}
 			c := env.c
+			if s.startID != 0 {
+				c.nextid = s.startID // white box: a long-lived client close to the wrap-around of its 32-bit id counter
+			}
 			f := &File{c: c, path: "/f", handle: "h1"}
 			var g vgroup
 			if s.ctxCancel {
@@ -387,6 +401,9 @@ func callsScenario(s callsSpec, prop string) explore.Scenario {
 				for _, cs := range s.callers {
 					for _, o := range cs {
 						if o.kind == "WriteAt" {
+							for len(want) < o.off+len(o.data) {
+								want = append(want, 0)
+							}
 							copy(want[o.off:], o.data)
 						}
 					}
@@ -449,6 +466,24 @@ func c03Specs(set string) []callsSpec {
 			{callers: [][]cop{{stat("/a")}, {ra6(0)}}, permute: true, cut: -1},
 			{callers: [][]cop{{wa(6, "PQ"), rl("/l")}, {ra6(0)}}, permute: true, cut: -1},
 		}
+	case "wrap": // request ids around the wrap-around of the 32-bit counter
+		return []callsSpec{
+			{callers: [][]cop{{stat("/a")}, {rl("/l")}, {lstat("/x")}}, permute: true, cut: -1, startID: 1<<32 - 2},
+			{callers: [][]cop{{stat("/a"), ra(2)}, {rl("/l"), wa(0, "PQ")}}, permute: true, cut: -1, startID: 1<<32 - 3},
+		}
+	case "sizes": // every request size around the powers of two where buffers tend to end: WRITE payloads and SETSTAT paths
+		var ws, cs []cop
+		for _, base := range []int{128, 256, 512, 1024} {
+			for n := base - 40; n <= base+8; n++ {
+				ws = append(ws, cop{kind: "WriteAt", off: 0, data: string(pattern(n, 'a'))})
+				cs = append(cs, cop{kind: "Chmod", path: "/" + string(pattern(n, 'p'))})
+			}
+		}
+		// the writes all start at offset 0: the longest one is written last so that the final content is the sum of all
+		return []callsSpec{
+			{callers: [][]cop{ws, {stat("/a"), lstat("/x"), rl("/l")}}, permute: true, cut: -1, maxPacket: 2048},
+			{callers: [][]cop{cs, {stat("/b"), rl("/m")}}, permute: true, cut: -1, maxPacket: 2048},
+		}
 	case "3x2":
 		return []callsSpec{
 			{callers: [][]cop{{rl("/l"), ra(6)}, {wa(0, "PQ"), stat("/s")}, {ra(2), mk("/deny/y")}}, permute: true, cut: -1},
@@ -465,7 +500,7 @@ func runCalls(c *reg.Ctx, prop, strategy string, bound int, specs []callsSpec) *
 			total.Exhaustive = false
 			break
 		}
-		r := explore.Run(explore.Config{Prop: prop, Strategy: strategy, Bound: bound, Ctx: c, Label: c.Part}, callsScenario(s, prop))
+		r := explore.Run(explore.Config{Prop: prop, Strategy: strategy, Bound: bound, Ctx: c, Label: c.Part, MaxSteps: 200000}, callsScenario(s, prop))
 		total.Evaluations += r.Evaluations
 		total.States += r.States
 		total.Transitions += r.Transitions
@@ -510,6 +545,12 @@ func runCalls(c *reg.Ctx, prop, strategy string, bound int, specs []callsSpec) *
 	return total
 }
 
+// sizesJob: the request-size sweep (long executions) under the original default scheduler only.
+func sizesJob(bound, budget int) reg.Job {
+	return reg.Job{Part: "C03/calls", Build: "instr", Args: map[string]string{"set": "sizes", "strategy": "db", "bound": fmt.Sprint(bound), "cache": "1", "policy": "0"}, Shards: 16, BudgetS: budget,
+		Label: fmt.Sprintf("sizes db%d (WRITE payloads and SETSTAT paths of every length around 128, 256, 512, 1024)", bound)}
+}
+
 func init() {
 	reg.Part("C03/calls", func(c *reg.Ctx) *reg.Result {
 		return runCalls(c, "C03", c.Arg("strategy", "db"), c.ArgInt("bound", 2), c03Specs(c.Arg("set", "2x2")))
@@ -525,9 +566,9 @@ func init() {
 				return reg.Job{Part: "C03/calls", Build: "instr", Args: map[string]string{"set": set, "strategy": strat, "bound": fmt.Sprint(bound)}, Shards: 16, BudgetS: budget, Label: set + " " + strat + fmt.Sprint(bound), Optional: opt}
 			}
 			if tier == "thorough" {
-				return append(withPolicies(tier, []reg.Job{j("2x1", "por", 0, 600, false), j("2x2", "db", 5, 900, false), j("3x1", "db", 5, 900, false), j("3x2", "db", 4, 600, false), j("mc", "db", 4, 900, false), j("ctx", "db", 4, 900, false), j("2x2", "por", 0, 900, true)}, func(reg.Job) bool { return true }), raceJob(tier), confJob(tier))
+				return append(withPolicies(tier, []reg.Job{j("2x1", "por", 0, 600, false), j("2x2", "db", 5, 900, false), j("3x1", "db", 5, 900, false), j("3x2", "db", 4, 600, false), j("mc", "db", 4, 900, false), j("ctx", "db", 4, 900, false), j("wrap", "db", 4, 600, false), j("2x2", "por", 0, 900, true)}, func(reg.Job) bool { return true }), sizesJob(2, 420), raceJob(tier), confJob(tier))
 			}
-			return append(withPolicies(tier, []reg.Job{j("2x1", "por", 0, 100, false), j("2x2", "db", 4, 100, false), j("3x1", "db", 4, 100, false), j("mc", "db", 3, 100, false), j("ctx", "db", 4, 100, false)}, func(reg.Job) bool { return true }), raceJob(tier), confJob(tier))
+			return append(withPolicies(tier, []reg.Job{j("2x1", "por", 0, 100, false), j("2x2", "db", 4, 100, false), j("3x1", "db", 4, 100, false), j("mc", "db", 3, 100, false), j("ctx", "db", 4, 100, false), j("wrap", "db", 3, 100, false)}, func(reg.Job) bool { return true }), sizesJob(1, 100), raceJob(tier), confJob(tier))
 		},
 	})
 }
